@@ -71,6 +71,7 @@ type Entry struct {
 	Fault     string
 	EnterStep uint64 // step in which the node issued the call
 	ApplyStep uint64 // step in which the engine executed it (0 = never reached the engine)
+	RetMs     int64  // simulated time (ms) at which the call returned
 	ApplySeq  int    // global order of engine executions (1-based; 0 = never)
 	RetStep   uint64 // step in which the call returned to the node (0 = has not returned)
 	Class     string // data, compact, lock, other
@@ -292,6 +293,7 @@ func (h *Handle) finish(e *Entry, err error) error {
 		}
 	}
 	e.RetStep = h.W.S.StepNo()
+	e.RetMs = h.W.S.SimTime().Milliseconds()
 	if err != nil {
 		e.Err = err.Error()
 	}
@@ -567,8 +569,14 @@ func (b *Batch) Commit(ctx context.Context) error {
 		}
 		err = inner.Commit(ctx)
 		e.Applied = err == nil
-		if eff == "uncertain-applied" && err == nil {
-			err = uncertainErr()
+		if eff == "uncertain-applied" {
+			if err == nil {
+				err = uncertainErr()
+			} else {
+				// the engine gave a definite answer (failed condition / conflict): nothing uncertain about it
+				e.Fault = ""
+				w.Fired["commit:"+eff]--
+			}
 		}
 		if eff == "crash-after" {
 			h.crash()
